@@ -13,12 +13,12 @@ git -C /repo worktree add --detach "$wt" HEAD >/dev/null 2>&1 || exit 2
 cleanup() { git -C /repo worktree remove --force "$wt" 2>/dev/null; git -C /repo worktree prune; }
 trap cleanup EXIT
 rundemo() { # prints exit code
-  if [ "$mode" = PURE ]; then /root/seedkit/runpy.sh "$wt" PURE "$src/demo.py" >/dev/null 2>&1; echo $?
-  else /root/seedkit/runpy.sh "$wt" "$src/demo.py" >/dev/null 2>&1; echo $?; fi; }
-/root/seedkit/build.sh "$wt" || { echo "$id: clean tree does not build?"; exit 2; }
+  if [ "$mode" = PURE ]; then "$V"/tools/seedkit/runpy.sh "$wt" PURE "$src/demo.py" >/dev/null 2>&1; echo $?
+  else "$V"/tools/seedkit/runpy.sh "$wt" "$src/demo.py" >/dev/null 2>&1; echo $?; fi; }
+"$V"/tools/seedkit/build.sh "$wt" || { echo "$id: clean tree does not build?"; exit 2; }
 clean=$(cd "$wt" && rundemo)
 git -C "$wt" apply "$src/patch.diff" || { echo "$id: REJECT patch does not apply"; exit 1; }
-suite=$(/root/seedkit/runsuite.sh "$wt" | tail -1)
+suite=$("$V"/tools/seedkit/runsuite.sh "$wt" | tail -1)
 case "$suite" in *"NOT passing: 0"*) ;; *) echo "$id: REJECT suite: $suite"; exit 1;; esac
 patched=$(cd "$wt" && rundemo)
 if [ "$clean" != 0 ] || [ "$patched" = 0 ]; then echo "$id: REJECT demo clean=$clean patched=$patched (mode $mode)"; exit 1; fi
@@ -32,7 +32,7 @@ notes = open(os.path.join(d, 'notes.md')).read() if os.path.exists(os.path.join(
 meta = {'id': id_, 'property': prop, 'origin': 'independent sub-agent given only the property text and a scratch worktree',
         'demo_mode': mode,
         'needs_to_manifest': 'see notes.md',
-        'confirmed': {'suite': 'fresh scratch worktree + patch, /root/seedkit/runsuite.sh: ' + suite,
+        'confirmed': {'suite': 'fresh scratch worktree + patch, tools/seedkit/runsuite.sh: ' + suite,
                       'demo': 'demo.py exit 0 on HEAD, exit 1 with the patch (mode %s)' % mode}}
 json.dump(meta, open(os.path.join(d, 'meta.json'), 'w'), indent=1)
 PY
